@@ -58,5 +58,73 @@ theorem runSteps_closed (user : Str) (steps : List VStep) (c : Rec Str) (k : Str
         simp only []
         rw [hcongr, get_applyV]; simp [Ne.symm hk]
 
+/-- a step applied again, with an empty user, to a record whose target field already holds what the step
+    computed (and whose qualifying field, if the step has one, is as loaded and empty) changes nothing -/
+theorem newVal_stable (user : Str) (c d : Rec Str) (s : VStep)
+    (hd : d.get (target s) = (newVal user c s).getD (c.get (target s)))
+    (hq : ∀ f g, s = .qualify f g → d.get g = c.get g ∧ asStr (c.get g) = []) :
+    (newVal [] d s).getD (d.get (target s)) = d.get (target s) := by
+  cases s with
+  | emptyOrStr f dflt =>
+    simp only [target, newVal] at hd ⊢
+    by_cases h : asStr (c.get f) = []
+    · simp only [h, if_true, Option.getD_some] at hd
+      rw [hd]; simp only [asStr]
+      by_cases h2 : dflt = []
+      · simp [h2]
+      · simp [h2]
+    · simp only [h, if_false, Option.getD_none] at hd
+      rw [hd]; simp [h]
+  | emptyOrInt f dflt =>
+    simp only [target, newVal] at hd ⊢
+    by_cases h : asInt (c.get f) = 0
+    · simp only [h, if_true, Option.getD_some] at hd
+      rw [hd]; simp only [asInt]
+      by_cases h2 : dflt = 0
+      · simp [h2]
+      · simp [h2]
+    · simp only [h, if_false, Option.getD_none] at hd
+      rw [hd]; simp [h]
+  | userPrefix f =>
+    simp only [target, newVal, Option.getD_some] at hd ⊢
+    rw [hd]; simp [asStr, namePrefix]
+  | qualify f g =>
+    obtain ⟨hg1, hg2⟩ := hq f g rfl
+    simp only [target, newVal, hg2, ne_eq, not_true_eq_false, if_false, Option.getD_some] at hd
+    simp only [target, newVal, hg1, hg2, ne_eq, not_true_eq_false, if_false, Option.getD_some]
+    rw [hd]; simp [asStr, namePrefix]
+  | userPrefixIfSet f =>
+    simp only [target, newVal] at hd ⊢
+    by_cases h : asStr (c.get f) = []
+    · simp only [h, ne_eq, not_true_eq_false, if_false, Option.getD_none] at hd
+      rw [hd]; simp [h]
+    · simp only [h, ne_eq, not_false_eq_true, if_true, Option.getD_some] at hd
+      have e : namePrefix ([] : Str) = [] := rfl
+      have ite_getD : ∀ (p : Prop) [Decidable p] (v : Value), (if p then some v else none).getD v = v := by
+        intro p _ v; split <;> rfl
+      rw [hd]; simp only [asStr, e, List.nil_append]
+      exact ite_getD _ _
+
+/-- applying the steps once more (with an empty user) to a completed record is the identity, as long as no
+    step qualifies its field by a non-empty one -/
+theorem closedForm_idem (user : Str) (steps : List VStep) (c d : Rec Str) (k : Str)
+    (hd : ∀ k, d.get k = closedForm user steps c k)
+    (hq : ∀ s ∈ steps, ∀ f g, s = .qualify f g → (∀ s' ∈ steps, target s' ≠ g) ∧ asStr (c.get g) = []) :
+    closedForm [] steps d k = d.get k := by
+  unfold closedForm
+  cases hf : steps.find? (fun s => target s = k) with
+  | none => rfl
+  | some s =>
+    have hs : s ∈ steps := List.mem_of_find?_eq_some hf
+    have ht : target s = k := by simpa using List.find?_some hf
+    subst ht
+    apply newVal_stable user c d s
+    · rw [hd, closedForm, hf]
+    · intro f g e
+      obtain ⟨h1, h2⟩ := hq s hs f g e
+      refine ⟨?_, h2⟩
+      rw [hd, closedForm, List.find?_eq_none.mpr]
+      intro s' hs'; simpa using h1 s' hs'
+
 end TypedConf
 end Frp
